@@ -20,6 +20,7 @@ from . import c08, c09
 LEVEL = "fault_enumeration"
 MINIMUMS = (1500, 300)
 LOGLINE = re.compile(r"^\S*\d{4}-\d\d-\d\dT\S+\s+(TRACE|DEBUG|INFO|WARN|ERROR)\b", re.M)
+ANSI = re.compile(r"\x1b\[[0-9;]*m")     # the log lines are coloured even when piped
 SUBCOMMANDS = ["version", "flow", "render", "check"]
 MODES = ["exit128", "exit1", "exit1-silent", "ok-empty", "ok-garbage", "ok-utf8", "ok-huge", "ok-negative", "killed"]
 
@@ -47,8 +48,32 @@ def scrape_flags(bins):
     return out
 
 
-NUMS = ["-1", "0", "1", "7", "4294967295", "4294967296", "18446744073709551615", "18446744073709551616", "1" + "0" * 30, "1.5", "1e3", "0x10", "٣", "", " 5"]
-TEMPLATES = ["{{ semver }}", "{{ pep440 }}", "{{ major }}.{{ minor }}", "{{ bumped_branch }}", "{{ prefix(value=bumped_branch, length=3) }}",
+NUMS = ["-1", "0", "1", "7", "4294967295", "4294967296", "18446744073709551615", "18446744073709551616", "1" + "0" * 30, "1.5", "1e3", "0x10", "٣", "", " 5",
+        "99999999999999", "253402300800", "8210266876800", "9223372036854775807", "9223372036854775808", "-9223372036854775808", "-9223372036854775809", "+5", "00"]
+# Tera's own built-ins are reachable through --output-template just like zerv's functions: failing and edge uses of each family
+TERA_BUILTINS = ["{{ get_random(start=5, end=1) }}", "{{ get_random(end=0) }}", "{{ 99999999999999 | date }}", "{{ bumped_timestamp | date }}", "{{ \"zz\" | int(base=1) }}",
+                 "{{ \"zz\" | int(base=99) }}", "{{ \"12\" | int(base=36) }}", "{{ bumped_timestamp | date(format=\"%Q\") }}", "{{ \"x\" | date }}", "{{ -99999999999999999 | date }}",
+                 "{{ \"2024-13-45\" | date }}", "{{ \"2024-01-01T00:00:00+99:00\" | date }}", "{{ bumped_timestamp | date(timezone=\"Nowhere/Land\") }}",
+                 "{% macro a() %}{{ self::a() }}{% endmacro a %}{{ self::a() }}", "{{ range(end=5) }}", "{% for i in range(end=3) %}{{ i }}{% endfor %}",
+                 "{{ range(start=5, end=1) }}", "{{ range(end=-1) }}", "{{ throw(message=\"x\") }}", "{{ get_env(name=\"NO_SUCH_VARIABLE_HERE\") }}",
+                 "{{ get_env(name=\"NO_SUCH\", default=major) }}", "{{ bumped_branch | split(pat=\"\") }}", "{{ bumped_branch | split(pat=\"\") | length }}",
+                 "{{ 1.5 | round(precision=99999) }}", "{{ 1.5 | round(method=\"nope\") }}", "{{ bumped_branch | truncate(length=18446744073709551615) }}",
+                 "{{ bumped_branch | truncate(length=0) }}", "{{ bumped_branch | slice(start=-50, end=100) }}", "{{ [1, 2, 3] | slice(start=5, end=1) }}",
+                 "{{ [1, 2] | join(sep=major) }}", "{{ 18446744073709551615 | filesizeformat }}", "{{ -1 | filesizeformat }}", "{{ bumped_branch | urlencode }}",
+                 "{{ bumped_branch | json_encode }}", "{{ 1 | pluralize(singular=major) }}", "{{ 5 % 0 }}", "{{ 9223372036854775807 + 1 }}", "{{ 9223372036854775807 * 2 }}",
+                 "{{ -9223372036854775807 - 2 }}", "{{ bumped_branch | replace(from=\"\", to=\"x\") }}", "{{ bumped_branch | first }}{{ bumped_branch | last }}",
+                 "{{ [] | first }}", "{{ [3, 1] | sort | nth(n=9) }}", "{{ [1, [2]] | sort }}", "{{ {} | get(key=\"a\") }}", "{{ bumped_branch | wordcount }}{{ bumped_branch | title }}",
+                 "{{ bumped_branch | trim_start_matches(pat=\"\") }}", "{{ bumped_branch | capitalize }}",
+                 "{{ bumped_branch | striptags | escape | safe }}", "{{ bumped_branch | linebreaksbr }}", "{{ bumped_branch | indent(width=3) }}", "{{ bumped_branch | addslashes | slugify }}",
+                 "{{ [1, 2, 3] | group_by(attribute=\"x\") }}", "{{ [1, 2] | map(attribute=\"x\") }}", "{{ [1, 2] | filter(attribute=\"x\", value=1) }}", "{{ [1, 2] | concat(with=major) | unique | reverse }}",
+                 "{{ major | as_str | float | int | abs }}", "{{ bumped_branch | float }}", "{{ bumped_branch | int }}", "{{ major is divisibleby(0) }}", "{{ major is containing(1) }}",
+                 "{{ bumped_branch is matching(\"(\") }}", "{{ bumped_branch is matching(\"(a*)*b\") }}", "{{ bumped_branch is starting_with(1) }}", "{{ major is odd }}{{ post is defined }}{{ post is number }}",
+                 "{% include \"x\" %}", "{% extends \"x\" %}", "{% import \"x\" as y %}", "{% raw %}{{ x }}{% endraw %}", "{% filter upper %}{{ semver }}{% endfilter %}",
+                 "{% set_global g = 1 %}{% for c in bumped_branch %}{% set_global g = g * 10 %}{% endfor %}{{ g }}", "{% for k, v in custom %}{{ k }}={{ v }};{% endfor %}",
+                 "{% for c in bumped_branch %}{{ loop.index }}{% break %}{% endfor %}", "{% for c in major %}x{% endfor %}", "{{ loop.index }}", "{{ __tera_context }}",
+                 "{% if major > \"a\" %}x{% endif %}", "{{ major ~ bumped_branch ~ none_such | default(value=\"d\") }}", "{{ semver_obj | json_encode(pretty=true) }}",
+                 "{# comment #}{{- semver -}}", "{{ \"\\u{d800}\" }}", "{{ 'a' in 1 }}", "{{ not not major }}", "{{ (major) and (minor or patch) }}", "{{ 1 == 1.0 }}{{ \"1\" == 1 }}"]
+TEMPLATES = TERA_BUILTINS + ["{{ semver }}", "{{ pep440 }}", "{{ major }}.{{ minor }}", "{{ bumped_branch }}", "{{ prefix(value=bumped_branch, length=3) }}",
              "{{ sanitize(value=bumped_branch, max_length=3) }}", "{{ sanitize(value=bumped_branch, separator='é', max_length=2) }}",
              "{{ format_timestamp(value=bumped_timestamp, format=\"%Q\") }}", "{{ format_timestamp(value=1, format=\"%\") }}",
              "{{ format_timestamp(value=99999999999999999) }}", "{{ hash_int(value=bumped_branch, length=0) }}", "{{ hash_int(value='x', length=30) }}",
@@ -166,6 +191,16 @@ def gen_argv(rng, flags):
     return [a for a in argv if "\x00" not in a]
 
 
+def _template_of(argv):
+    tpl = ""
+    for i, a in enumerate(argv):
+        if a == "--output-template" and i + 1 < len(argv):
+            tpl = argv[i + 1]
+        elif a.startswith("--output-template="):
+            tpl = a.split("=", 1)[1]
+    return tpl
+
+
 def judge(r, argv, st=None):
     """-> list of (sig, why)"""
     out = []
@@ -178,17 +213,33 @@ def judge(r, argv, st=None):
     if code == 101 or "panicked at" in err:
         m = re.search(r"panicked at ([^\s:]+):\d+", err)
         loc = m.group(1) if m else "?"
-        loc = loc[loc.find("src/"):] if "src/" in loc else loc
-        out.append(("panic@" + loc, "exit %s, stderr: %s" % (code, err.strip().splitlines()[0][:200] if err.strip() else "")))
+        third_party = None
+        m3 = re.search(r"/registry/src/[^/]+/(.+)$", loc)
+        if m3:
+            third_party = loc = m3.group(1)           # e.g. rand-0.8.5/src/rng.rs
+        elif loc.startswith("/rustc/") or loc.startswith("library/"):
+            third_party = loc = loc[loc.find("library/"):]
+        else:
+            loc = loc[loc.find("src/"):] if "src/" in loc else loc
+        first = err.strip().splitlines()[0][:200] if err.strip() else ""
+        if third_party:
+            # a panic raised inside the template engine's own built-ins (not zerv code): classified by the built-in the template uses
+            tpl = _template_of(argv)
+            for name, pat in (("get_random", "get_random("), ("date", "| date"), ("int", "| int(")):
+                if pat in tpl:
+                    out.append(("panic-in-tera-builtin-" + name, "exit %s at %s: %s (template %r)" % (code, loc, first, tpl[:120])))
+                    return out
+        out.append(("panic@" + loc, "exit %s, stderr: %s" % (code, first)))
         return out
     if (code is not None and code < 0) or code == 134:
+        tpl = _template_of(argv)
+        if "memory allocation of" in err and "range(" in tpl:
+            out.append(("abort-memory-exhaustion-in-tera-range", "allocation failure abort (exit %s) under the %d GiB ceiling: %s (template %r)" % (code, core.MEM_LIMIT >> 30, err.strip()[:100], tpl[:100])))
+            return out
         if "has overflowed its stack" in err:
-            tpl = ""
-            for i, a in enumerate(argv):
-                if a == "--output-template" and i + 1 < len(argv):
-                    tpl = argv[i + 1]
-                elif a.startswith("--output-template="):
-                    tpl = a.split("=", 1)[1]
+            if "self::" in tpl and "macro" in tpl and len(tpl) <= 10000:
+                out.append(("abort-stack-overflow-in-recursive-template-macro", "stack overflow abort (exit %s) on the self-recursive macro template %r" % (code, tpl[:120])))
+                return out
             if len(tpl) > 10000:
                 # recorded finding: Tera's recursive-descent parser has no depth limit
                 out.append(("abort-stack-overflow-in-template-parser", "stack overflow abort (exit %s) on a %d-character template" % (code, len(tpl))))
@@ -198,7 +249,7 @@ def judge(r, argv, st=None):
         out.append(("killed-by-signal", "terminated by signal %s" % (-code if code < 0 else code)))
         return out
     if code == 0:
-        if LOGLINE.search(so):
+        if LOGLINE.search(ANSI.sub("", so)):
             out.append(("log-line-on-stdout", "log-shaped line on stdout: %r" % so[:200]))
     else:
         if so:
@@ -213,11 +264,17 @@ def work_fuzz(bins, seed, n, flags):
     bad = []
     st = {"runs": 0, "exit0": 0, "exit_nonzero": 0, "clap_rejections": 0, "verbose_pairs": 0, "timeouts": 0}
     distinct = set()
+    timed_out = []
     env_plain = core.base_env(bins)
     env_trace = core.base_env(bins, extra={"RUST_LOG": "trace"})
     samples = []
     for _ in range(n):
         argv = gen_argv(rng, flags)
+        if argv and rng.random() < 0.03:
+            # an argument that is not valid UTF-8 (a lone surrogate here is passed to the process as the byte 0xff / 0xc3)
+            i = rng.randrange(len(argv))
+            argv[i] = rng.choice([argv[i] + "\udcff", "\udcc3" + argv[i], "\udcff", "caf\udce9", "a\udcffb"])
+            st["non_utf8_argv"] = st.get("non_utf8_argv", 0) + 1
         stdin = rand_stdin(rng)
         r = core.run_zerv(bins, argv, stdin=stdin, env=env_plain, timeout=20)
         st["runs"] += 1
@@ -227,6 +284,7 @@ def work_fuzz(bins, seed, n, flags):
         res = judge(r, argv)
         if res and res[0][0] == "__timeout__":
             st["timeouts"] += 1
+            timed_out.append(case)
             continue
         for sig, why in res:
             bad.append((sig, why, case))
@@ -263,7 +321,27 @@ def work_fuzz(bins, seed, n, flags):
                 bad.append((sig, "[%s] %s" % (how, why), case2))
             if r2["exit"] != r["exit"] or r2["out"] != r["out"]:
                 bad.append(("verbose-changes-stdout", "with %s: exit %s -> %s, stdout %r -> %r" % (how, r["exit"], r2["exit"], r["out"][:120], r2["out"][:120]), case2))
-    return dict(bad=bad, st=st, distinct=len(distinct), samples=samples)
+    return dict(bad=bad, st=st, distinct=len(distinct), samples=samples, timed_out=timed_out)
+
+
+def judge_termination(bins, cases):
+    """"terminates": the runs that hit the 20 s watchdog while 16 workers were busy are repeated one at a time with a 150 s ceiling;
+    only a run that is still going then (or dies of memory exhaustion) is judged, anything that finishes is judged like any other run"""
+    bad = []
+    n = 0
+    for case in cases[:12]:
+        stdin = case["stdin"].encode("latin-1") if case.get("stdin_is_bytes") else case["stdin"]
+        r = core.run_zerv(bins, case["argv"], stdin=stdin, env=core.base_env(bins), timeout=150)
+        n += 1
+        if r["timeout"]:
+            sig = "does-not-terminate"
+            if any("step_by=0" in a for a in case["argv"]):
+                sig = "does-not-terminate-tera-range-step-0"
+            bad.append((sig, "still running after 150 s on an idle machine: zerv %r" % (case["argv"],), case))
+        else:
+            for sig, why in judge(r, case["argv"]):
+                bad.append((sig, "[serial re-run] " + why, case))
+    return bad, n
 
 
 # ---------------------------------------------------------------------------
@@ -471,10 +549,12 @@ def run(ctx):
     if len(flags["version"]) < 30 or len(flags["flow"]) < 15:
         raise core.Inconclusive("flag scraping found too few flags: %r" % {k: len(v) for k, v in flags.items()})
     per = 150 if quick else 8000
+    slow = []
     for r in core.pmap(work_fuzz, [(ctx.bins, "%s/%d/z%d" % (ctx.prop, ctx.seed, i), per, flags) for i in range(32)]):
         ctx.merge_counts(r["st"])
         ctx.evaluations += r["st"]["runs"]
         ctx.distinct_extra += r["distinct"]
+        slow += r["timed_out"]
         for sig, why, case in r["bad"]:
             ctx.refute(sig, why, case)
         for s in r["samples"][:1]:
@@ -523,6 +603,38 @@ def run(ctx):
                 ctx.count("resource_exhaustion_timeouts")
             else:
                 ctx.refute(sig, why, dict(kind="fuzz", argv=[a if len(a) < 200 else a[:80] + "...<%d chars>" % len(a) for a in argv], stdin=(stdin or "")[:100], stdin_is_bytes=False))
+    # every Tera built-in template of the pool, deliberately (the fuzz only draws some of them), on three inputs
+    tb = []
+    for t in TERA_BUILTINS:
+        tb.append(["render", "1.2.3-rc.1+build.7", "--output-template", t])
+        tb.append(["version", "--source", "none", "--tag-version", "1.2.3", "--bumped-branch", "Feature/Foo bar", "--bumped-timestamp", "99999999999999", "--output-template", t])
+        tb.append(["flow", "--source", "none", "--tag-version", "1.2.3", "--distance", "2", "--custom", "{\"a\": {\"b\": [1, 2]}}", "--output-template", t])
+    for argv, res in zip(tb, core.pmap(work_deep, [(ctx.bins, a, None) for a in tb])):
+        ctx.evaluations += 1
+        ctx.count("tera_builtin_sweep_runs")
+        for sig, why in res:
+            if sig == "__timeout__":
+                slow.append(dict(kind="fuzz", argv=argv, stdin=None, stdin_is_bytes=False))
+            else:
+                ctx.refute(sig, why, dict(kind="fuzz", argv=argv, stdin=None, stdin_is_bytes=False))
+    # Tera's looping built-ins: bounded ones must work, an unbounded one must not eat the machine (every run has an 8 GiB address-space ceiling)
+    loops = [["render", "1.2.3", "--output-template", "{% for i in range(end=1000) %}x{% endfor %}"],
+             ["render", "1.2.3", "--output-template", "{{ range(end=5, step_by=0) }}"],
+             ["render", "1.2.3", "--output-template", "{% for i in range(end=10000000000) %}x{% endfor %}"]]
+    for argv, res in zip(loops, core.pmap(work_deep, [(ctx.bins, a, None) for a in loops])):
+        ctx.evaluations += 1
+        ctx.count("tera_loop_probes")
+        for sig, why in res:
+            if sig == "__timeout__":
+                slow.append(dict(kind="fuzz", argv=argv, stdin=None, stdin_is_bytes=False))
+            else:
+                ctx.refute(sig, why, dict(kind="fuzz", argv=argv, stdin=None, stdin_is_bytes=False))
+    # "terminates": what hit the watchdog under load is repeated alone
+    tbad, tn = judge_termination(ctx.bins, slow)
+    ctx.count("watchdog_hits_rerun_serially", tn)
+    ctx.evaluations += tn
+    for sig, why, case in tbad:
+        ctx.refute(sig, why, case)
     nrep = 5 if quick else 48
     calls = set()
     for r in core.pmap(work_faults, [(ctx.bins, "%s/%d" % (ctx.prop, ctx.seed), i, ctx.tmp, part) for i in range(nrep) for part in range(4)]):
@@ -543,7 +655,8 @@ def run(ctx):
                 "clean run (k = 1..n) failed in each of %d modes, plus git missing / not a repository / no commits / broken .git. "
                 "non-trivial = distinct (argv, stdin) and (repo, command, k, mode)" % (32 * per, len(flags["version"]), len(flags["flow"]), len(flags["render"]),
                                                                                      len(flags["check"]), len(TEMPLATES), nrep, len(MODES)))
-    ctx.assumptions = ["a watchdog timeout (20 s) is counted, never judged", "templates with unbounded loops are not generated"]
+    ctx.assumptions = ["a watchdog timeout (20 s under load) is not a verdict: up to 12 such runs are repeated one at a time with a 150 s ceiling and only judged then",
+                       "every zerv process runs under an 8 GiB address-space limit (an allocation failure abort is judged as an abort)"]
 
 
 def replay(ctx, doc):
